@@ -5,7 +5,9 @@ Tree specifications (JSON-able):
     leaf   ::= ["S", key, value]      SetContext(key, value); value a constant or a "{{k}}_x" template
              | ["St"]                 StoreContext
              | ["U"]                  UpdateContextFromStatic
-             | ["M", key]             MakeFilename("m_{{key}}")
+             | ["M", key]             MakeFilename(filename="m_{{key}}", dirname="d_{{key}}-{{rt}}") (for a
+                                      two-field key the dirname takes its first field); rt is a key that
+                                      only a value's run-time context ever holds
              | ["W", key]             Write("w_{{key}}")
              | ["W0", key]            Write("{{key}}") - the directory is the formatted value alone
              | ["C", key]             Cache("c<uid>_{{key}}.pkl")
@@ -321,20 +323,75 @@ def definite(outs):
 
 # ---- what a consumer derives from a context ---------------------------------------------------
 
+# Run-time contexts of the values a consumer that works on values (MakeFilename,
+# UpdateContextFromStatic) is probed with, in this order, through ONE element object: no context at all,
+# a key no static context ever holds, keys that static contexts hold too - at the top level and inside a
+# sub-dictionary - (the run-time context has higher precedence, says MakeFilename), and no context again
+# (what earlier values brought is gone).
+M_PROBES = [{}, {"rt": 7}, {"Ka": "r", "Kn": {"a": "r"}}, {}]
+# UpdateContextFromStatic: only keys that no static context holds (which side wins is not C13's matter)
+U_PROBES = [{}, {"rt": 7}, {}]
+
+
+def _copy(x):
+    return json.loads(json.dumps(x))
+
+
+def _name(leaf, ctx):
+    """The name a one- or two-field template gives against *ctx*; None when a field is unresolvable
+    (nothing derived)."""
+    kind = leaf[0]
+    try:
+        body = "-".join(str(lookup(ctx, k)) for k in leaf[1].split("+"))
+    except KeyError:
+        return None
+    return {"M": "m_", "W": "w_", "W0": "", "C": "c_"}[kind] + body + (".pkl" if kind == "C" else "")
+
+
+def _dirname(leaf, ctx):
+    """The second field of a MakeFilename: its template takes one key from the static context and the
+    key rt, which only a value brings."""
+    try:
+        return "d_" + str(lookup(ctx, leaf[1].split("+")[0])) + "-" + str(lookup(ctx, "rt"))
+    except KeyError:
+        return None
+
+
+def expected_observations(leaf, ctx):
+    """Every observation (in the form of c13_build.observe_leaf) the statement and the docstrings allow
+    for the consumer *leaf* that was given the static context *ctx*."""
+    kind = leaf[0]
+    if kind == "U":
+        # the static context arrives in every value's context, the value's own keys stay
+        return [[merge(_copy(r), _copy(ctx)) for r in U_PROBES]]
+    if kind == "M":
+        # "Formatting context is retrieved from static context and from the context part of the value.
+        # The run-time context has higher precedence": whether a run-time sub-dictionary replaces the
+        # static one or is merged into it is not said - both readings, each for both fields of the
+        # element; nothing but *output* is added to the value's context
+        per_probe = []
+        for r in M_PROBES:
+            shallow = _copy(ctx)
+            shallow.update(_copy(r))
+            deep = merge(_copy(ctx), _copy(r))
+            opts = []
+            for full in (shallow, deep):
+                one = [_name(leaf, full), _dirname(leaf, full), _copy(r)]
+                if one not in opts:
+                    opts.append(one)
+            per_probe.append(opts)
+        return [list(combo) for combo in itertools.product(*per_probe)]
+    return [expected_observation(leaf, ctx)]
+
+
 def expected_observation(leaf, ctx):
     kind = leaf[0]
     if kind == "St":
         return ctx
-    if kind == "U":
-        return ctx
-    if kind in ("M", "W", "W0", "C"):
-        try:
-            # a key "Ka+Kb" stands for the two-field template "{{Ka}}-{{Kb}}": derived only when both
-            # fields can be resolved
-            body = "-".join(str(lookup(ctx, k)) for k in leaf[1].split("+"))
-            return {"M": "m_", "W": "w_", "W0": "", "C": "c_"}[kind] + body + (".pkl" if kind == "C" else "")
-        except KeyError:
-            return None   # nothing derived
+    if kind in ("W", "W0", "C"):
+        # a key "Ka+Kb" stands for the two-field template "{{Ka}}-{{Kb}}": derived only when both
+        # fields can be resolved
+        return _name(leaf, ctx)
     raise ValueError(leaf)
 
 
